@@ -4,7 +4,7 @@ From Coq Require Import List NArith Bool Arith Lia.
 From SV Require Import lib.Bytes lib.Closure lib.SqlExpr gen.GenSched model.Graph model.GraphInv model.Sched
   model.SchedGraph proofs.GraphBase proofs.GraphNodes proofs.GraphInvP proofs.SchedProofs proofs.SchedPrims
   proofs.SchedSeq proofs.SchedSkel proofs.SchedGraphCpl proofs.SchedGraphBelow proofs.SchedGraphSim
-  proofs.SchedGraphErase proofs.SchedGraphAcyclic proofs.SchedRevert.
+  proofs.SchedGraphErase proofs.SchedGraphAcyclic proofs.SchedRevert proofs.SchedReconcile.
 Import ListNotations.
 Open Scope N_scope.
 
@@ -119,13 +119,18 @@ Inductive reach : st -> graph -> Prop :=
    alphabet; FlagInv is PROVED for it (SchedRevert.revert_optional_sound), the stored workflow that the result
    is coupled to is certified (decidable: coupled_b, inv_core_b && ntc_b, fwf_b on every real occurrence) *)
 | reach_revert s g s' : reach s g -> FWF g ->
-    coupled idf s' (fst (revert_optional g)) -> J s' -> reach s' (fst (revert_optional g)).
+    coupled idf s' (fst (revert_optional g)) -> J s' -> reach s' (fst (revert_optional g))
+(* a new director run with other targets: Scheduler.initialize + Workflow.reconcile_targets.  The stored workflow
+   does not change (only flags and the temp tables do); FlagInv is PROVED (SchedReconcile.reconcile_sound) under
+   two hypotheses on the snapshot that the correspondence evaluates on every real reconcile *)
+| reach_targets s g ts tds thr : reach s g -> LabelsUnique g -> OutInv g ->
+    reach s (reconcile (set_targets g ts tds thr)).
 
 Lemma reach_minv s g : reach s g -> minv s g.
 Proof.
   induction 1 as [s g H | a o s g s' l g' _ IH Hp E Er | a o s g s' l g' _ IH E Er O C' HJ'
                   | l s g s' g' _ IH Er O C' HJ' | s g g' _ IH E
-                  | s g s' _ IH Hfw C' HJ'].
+                  | s g s' _ IH Hfw C' HJ' | s g ts tds thr _ IH Hl Ho].
   - exact H.
   - destruct (op_preserving_correct a o s g s' l IH Hp E) as [g2 [Er2 [_ H2]]]. congruence.
   - eapply op_certified_correct; eassumption.
@@ -133,6 +138,10 @@ Proof.
   - destruct (tick_correct s g IH) as [g2 [E2 [_ [H2 _]]]]. congruence.
   - destruct IH as [_ [_ HF]]. split; [exact HJ'|]. split; [exact C'|].
     apply (revert_optional_sound g Hfw HF).
+  - destruct IH as [HJ [C HF]]. split; [exact HJ|]. split.
+    + apply (same_skel_coupled idf s g _ C). unfold reconcile, reconcile_with.
+      eapply same_skel_trans; [|apply same_skel_flag_keys]. repeat split.
+    + apply reconcile_sound; [reflexivity | apply (J_WF idf idf_inj s g HJ C) | exact Hl | exact Ho | exact HF].
 Qed.
 
 Theorem cached_equals_spec_at_every_decision s g : reach s g ->
